@@ -390,6 +390,26 @@ def sparse(lab):
     return plan(), d
 
 
+def cleared_sleep(lab):
+    """A non-resumable section (after clear_checkpoint) with messages that take time -- sleep, set + wait -- and no cleanup."""
+    from bluesky.utils import Msg
+
+    d = _std(lab)
+    m = d["m1"]
+
+    def plan():
+        yield Msg("open_run")
+        yield Msg("checkpoint")
+        yield Msg("clear_checkpoint")
+        yield Msg("sleep", None, 0.1)
+        yield Msg("set", m, 1.0, group="g")
+        yield Msg("wait", None, group="g")
+        yield Msg("null", None, "after")
+        yield Msg("close_run")
+
+    return plan(), d
+
+
 def two_runs_cleared(lab):
     """Two consecutive runs; the first contains clear_checkpoint and no later checkpoint; cleanup via finalize."""
     import bluesky.preprocessors as bpp
@@ -613,5 +633,5 @@ def clearing_prelude(lab):
     return [Msg("checkpoint"), Msg("clear_checkpoint"), Msg("null", None, "prelude")]
 
 
-CORPUS = dict(wait_move_on=wait_move_on, retry_close=retry_close, interleaved=interleaved, monitor_meta=monitor_meta, monitor_mid=monitor_mid, stubbed=stubbed, sparse=sparse, two_runs_cleared=two_runs_cleared, late_wait=late_wait, norewind_section=norewind_section, configure_mid=configure_mid, count_norewind=count_norewind, declared=declared, double_stage=double_stage, failpause=failpause, defer_failpause=defer_failpause, count2=count2, scan2=scan2, scan3=scan3, rel_scan2=rel_scan2, list_scan2=list_scan2, grid2x2=grid2x2, adaptive=adaptive, tune=tune,
+CORPUS = dict(cleared_sleep=cleared_sleep, wait_move_on=wait_move_on, retry_close=retry_close, interleaved=interleaved, monitor_meta=monitor_meta, monitor_mid=monitor_mid, stubbed=stubbed, sparse=sparse, two_runs_cleared=two_runs_cleared, late_wait=late_wait, norewind_section=norewind_section, configure_mid=configure_mid, count_norewind=count_norewind, declared=declared, double_stage=double_stage, failpause=failpause, defer_failpause=defer_failpause, count2=count2, scan2=scan2, scan3=scan3, rel_scan2=rel_scan2, list_scan2=list_scan2, grid2x2=grid2x2, adaptive=adaptive, tune=tune,
               fly1=fly1, bare=bare, cleanup=cleanup, staged_monitor=staged_monitor, nested_runs=nested_runs, flymon=flymon)
